@@ -285,7 +285,14 @@ impl SnfCalc {
 
 impl Mat {
     #[verifier::external_body] pub fn shape(&self) -> (r: (usize, usize)) { unimplemented!() }
+    #[verifier::external_body] pub fn is_diag(&self) -> (r: bool) { unimplemented!() }
+    #[verifier::external_body] pub fn is_zero(&self) -> (r: bool) { unimplemented!() }
+    #[verifier::external_body] pub fn id(n: usize) -> (r: Mat) ensures r.m@ == mid() { unimplemented!() }
+    #[verifier::external_body] pub fn clone(&self) -> (r: Mat) ensures r.m@ == self.m@ { unimplemented!() }
 }
+/// std::cmp::min (ASSUMED)
+pub fn umin_(a: usize, b: usize) -> (r: usize) ensures r == (if a <= b { a } else { b }) { if a <= b { a } else { b } }
+//@item struct/SnfResult subst=Mat<R>:Mat,Option<Mat<R>>:Option<Mat>
 impl SnfCalc {
     /// pivot search and non-zero counts: iterator adaptors over nalgebra views (not under contract; any result is allowed)
     #[verifier::external_body] pub fn select_pivot(&self, below_i: usize, j: usize) -> (r: Option<usize>) { unimplemented!() }
@@ -326,7 +333,84 @@ impl SnfCalc {
     //@| for j in 0..n
     //@+ loop 0
     //@| invariant i <= __it0, same_flags(*old(self), *self), forall|a0: int| pq_ok(*old(self), a0) ==> pq_ok(*self, a0),
+    /// ASSUMED (dyn Any downcast + LLL-based HNF preprocessing, property C10): a unimodular row transformation, tracked like every other
+    #[verifier::external_body] pub fn preprocess(&mut self)
+        ensures same_flags(*old(self), *final(self)), forall|a0: int| pq_ok(*old(self), a0) ==> pq_ok(*final(self), a0) { unimplemented!() }
+
+    /// the diagonal normalisation as a whole: whatever it does, it does through tracked operations
+    #[verifier::exec_allows_no_decreases_clause]
+    pub fn diag_normalize(&mut self)
+        ensures same_flags(*old(self), *final(self)), forall|a0: int| pq_ok(*old(self), a0) ==> pq_ok(*final(self), a0),
+    //@body impl/SnfCalc/diag_normalize ring=1 index2=1 for_range=1 for_iter=1 machine=n,r,i loops=4 subst=min:umin_
+    //@+ sig
+    //@| fn diag_normalize(&mut self)
+    //@+ loop 0 header
+    //@| (0..n).filter(|&i|
+    //@+ loop 0
+    //@| invariant __it0 <= __hi0, __hi0 == n, __found0.is_some() ==> __found0.unwrap() < n,
+    //@+ loop 1 header
+    //@| 'outer: loop
+    //@+ loop 1
+    //@| invariant r >= 1, r <= n, same_flags(*old(self), *self), forall|a0: int| pq_ok(*old(self), a0) ==> pq_ok(*self, a0),
+    //@+ loop 2 header
+    //@| for i in 0..r-1
+    //@+ loop 2
+    //@| invariant r >= 1, r <= n, __hi2 == r - 1, same_flags(*old(self), *self), forall|a0: int| pq_ok(*old(self), a0) ==> pq_ok(*self, a0),
+    //@+ loop 3 header
+    //@| for i in 0..r
+    //@+ loop 3
+    //@| invariant same_flags(*old(self), *self), forall|a0: int| pq_ok(*old(self), a0) ==> pq_ok(*self, a0),
+    //@+ after-let u
+    //@| ax_nunit_unit(self.target.at_spec(i, i));
+
+    /// the whole reduction
+    #[verifier::exec_allows_no_decreases_clause]
+    pub fn process(&mut self)
+        ensures same_flags(*old(self), *final(self)), forall|a0: int| pq_ok(*old(self), a0) ==> pq_ok(*final(self), a0),
+    //@body impl/SnfCalc/process
+
+    /// start: P = Pinv = I, Q = Qinv = I for the requested transforms
+    pub fn new(target: Mat, flags: [bool; 4]) -> (s: SnfCalc)
+        ensures s.target.m@ == target.m@, pq_ok(s, target.m@),
+            s.p.is_some() == flags@[0], s.pinv.is_some() == flags@[1], s.q.is_some() == flags@[2], s.qinv.is_some() == flags@[3],
+    //@body impl/SnfCalc/new subst=R:ER
+    //@+ sig
+    //@| fn new(target: Mat<R>, flags: SnfFlags) -> Self
+    //@+ closure 0 typed
+    //@| size: usize, flag: bool
+    //@+ closure 0
+    //@| -> (o: Option<Mat>) ensures o.is_some() == flag, flag ==> o.unwrap().m@ == mid()
+    //@+ pre
+    //@| mx_id(target.m@); mx_id(mid());
+
+    pub fn result(self) -> (r: SnfResult)
+        ensures r.result == self.target, r.p == self.p, r.pinv == self.pinv, r.q == self.q, r.qinv == self.qinv,
+    //@body impl/SnfCalc/result
+    //@+ sig
+    //@| fn result(self) -> SnfResult<R>
 //@endif
 }
+//@if A
+/// what snf_in_place(a0, flags) returns: D = P a0 Q and two-sided inverses, for the transforms that were requested
+pub open spec fn snf_res_ok(r: SnfResult, a0: int) -> bool {
+    (r.p.is_some() && r.q.is_some() ==> r.result.m@ == mmul(mmul(opt(r.p), a0), opt(r.q)))
+    && (r.p.is_some() && r.pinv.is_some() ==> mmul(opt(r.p), opt(r.pinv)) == mid() && mmul(opt(r.pinv), opt(r.p)) == mid())
+    && (r.q.is_some() && r.qinv.is_some() ==> mmul(opt(r.q), opt(r.qinv)) == mid() && mmul(opt(r.qinv), opt(r.q)) == mid())
+}
+#[verifier::exec_allows_no_decreases_clause]
+pub fn snf_in_place(target: Mat, flags: [bool; 4]) -> (r: SnfResult)
+    ensures snf_res_ok(r, target.m@), r.p.is_some() == flags@[0], r.pinv.is_some() == flags@[1], r.q.is_some() == flags@[2], r.qinv.is_some() == flags@[3],
+//@body fn/snf_in_place
+//@+ sig
+//@| fn snf_in_place<R>(target: Mat<R>, flags: SnfFlags) -> SnfResult<R> where R: EucRing, for<'a> &'a R: EucRingOps<R>
+//@+ pre-raw
+//@| let ghost a0 = target.m@;
+#[verifier::exec_allows_no_decreases_clause]
+pub fn snf(target: &Mat, flags: [bool; 4]) -> (r: SnfResult)
+    ensures snf_res_ok(r, target.m@), r.p.is_some() == flags@[0], r.pinv.is_some() == flags@[1], r.q.is_some() == flags@[2], r.qinv.is_some() == flags@[3],
+//@body fn/snf
+//@+ sig
+//@| fn snf<R>(target: &Mat<R>, flags: SnfFlags) -> SnfResult<R> where R: EucRing, for<'a> &'a R: EucRingOps<R>
+//@endif
 } // verus!
 fn main() {}
